@@ -216,12 +216,15 @@ def canReach (p : Proc) (src target : String) : Bool :=
   let next := ((p.node? src).map (·.outs)).getD [] |>.map (flowDst p)
   reach p target (4 * p.nodes.length + 8) next []
 
-/-- does some live token (not at `gw`) still have a path to `gw`? -/
+/-- does some live token (not at `gw`) still have a path to `gw`, or is one just arriving on an incoming flow? -/
 def upstreamLive (p : Proc) (s : St) (gw : String) (work : List Tok) (arrived : List Nat) : Bool :=
   let others : List Tok := (s.pending.map (·.1)) ++ s.parked ++ s.subs ++ work ++
     (s.pg.flatMap (fun q => q.2.map (fun f => ({ fid := f, node := q.1 } : Tok)))) ++
     (s.ig.flatMap (fun g => if g.gw == gw then [] else (g.arrived.map (fun f => ({ fid := f, node := g.gw } : Tok)))))
   others.any (fun t => !arrived.contains t.fid && t.node != gw && canReach p t.node gw)
+    -- a token of the work list that stands at `gw` without having been registered there is ON an incoming flow
+    -- (only under `eagerSettle`; otherwise the work list is empty whenever gateways are evaluated)
+    || work.any (fun t => !arrived.contains t.fid && t.node == gw)
 
 def igGet (s : St) (gw : String) : IgSt := (s.ig.find? (·.gw == gw)).getD { gw }
 def igSet (s : St) (g : IgSt) : St := { s with ig := (s.ig.filter (·.gw != g.gw)) ++ [g] }
